@@ -695,6 +695,8 @@ package multiplex
 //@   requires sesh != nil && holdsNone()
 //@   ensures countedIffOpened: calls("(*Session).streamCountIncr") <= 1 && ((ret1 == nil) == (calls("(*Session).streamCountIncr") == 1))
 //@   ensures streamOnSuccess: ret1 == nil ==> ret0 != nil
+//@   # C13: stream ids are handed out by ONE atomic fetch-and-add (two concurrent opens never get the same id)
+//@   atcall makeStream requires idIsTheFetchedOne: int(arg1.(uint32)) == int(lastretOf[uint32]("sync/atomic.AddUint32")) - 1 || (lastretOf[uint32]("sync/atomic.AddUint32") == 0 && arg1.(uint32) == 4294967295)
 //@   ensures openedOnThisSession: ret1 == nil ==> ret0.session == sesh && ret0.recvBuf != nil
 //@   ensures usable: ret1 == nil && old(closable(sesh)) ==> streamOK(ret0)
 //@   ensures sessionStaysUsable: old(closable(sesh)) ==> closable(sesh)
@@ -806,12 +808,15 @@ package multiplex
 // Close contracts) and it is counted out - exactly one decrement per receive buffer closed.
 //@ func (*Session).closeSession
 //@   requires sesh != nil && !held(sesh.streamsM) && locksBelow(sesh.streamsM)
+//@   # C12: the caller that wins the CAS closes the accept queue, so that a blocked Accept returns
+//@   ensures acceptQueueClosed: ret0 == nil ==> called("close")
 //@   ensures locks: holdsAsAtEntry()
 //@   modifies *
 //@   preserves $SKEEP
 //@   loop 0 invariant lk: holdsEntryPlus(sesh.streamsM) && sesh != nil && sesh.streams != nil
 //@   loop 0 invariant table: forall k uint32 :: mapHas(sesh.streams, k) && sesh.streams[k] != nil ==> sesh.streams[k].session == sesh && sesh.streams[k].recvBuf != nil
 //@   loop 0 complete everyStreamVisited
+//@   loop 0 invariant queueClosedFirst: called("close")
 //@   loop 0 step countedOutWhenClosed: calls("(*Session).streamCountDecr") - old(calls("(*Session).streamCountDecr")) == calls("(recvBuffer).Close") - old(calls("(recvBuffer).Close"))
 
 // closeAll closes every pooled connection (sync.Map.Range with a callback: assumed)
